@@ -232,7 +232,13 @@ def validate_translator(ctx, n):
         lines.append("leaf " + " ".join([f2h(x), f2h(y)] + enc_comps([c])))
     # amp == 0 (outside C04's range, amp != 0, so never judged against the property): only the tie between the
     # regenerated definitions and the code — both give NaN for model/amp, or both take the `amp == 0` special case
-    for _ in range(4):
+    # … and only when the translator could read how the source treats amp == 0 (flag regenerated, and the special
+    # branch regenerated when there is one): an unreadable spelling of the special case must never alarm
+    st = ctx.extra.get('translator') or {}
+    flag_read = st.get('dmdsZero') == 'translated' and st.get('dmds') == 'translated' and (
+        ctx.driver.batch(['ampzero'])[0].strip() == '0' or st.get('dmds0') == 'translated')
+    ctx.extra['amp_zero_points_in_translator_validation'] = bool(flag_read)
+    for _ in range(4 if flag_read else 0):
         c = (0.0,) + rand_comp(rng, 10, 10)[1:]
         x, y = float(rng.randint(0, 9)), float(rng.randint(0, 9))
         args.append((x, y, c))
@@ -961,6 +967,8 @@ def run(ctx):
     debug_slice(ctx, sample)
     index_sweep(ctx, sweep_lists(ctx))
     bmatrix_contract(ctx)
+    ctx.extra['amp_zero_special_case_flag'] = ctx.driver.batch(['ampzero'])[0].strip() + \
+        '   (1: the source special-cases amp == 0, hasDerivAt_amp_everywhere applies to every amplitude; 0: vacuous)'
     ctx.extra['lmfit_jacobian_pipeline'] = ctx.driver.batch(['pipeline'])[0] + '   (src len op0 op1 ...; 1 = /errs, 2 = .dot(B), 3 = transpose)'
     degenerate_probes(ctx)
     hessian_observation(ctx)
@@ -1031,7 +1039,8 @@ def leaf_spec_probe(ctx, npts):
         pts.append((float(rng.randint(0, 9)), float(rng.randint(0, 9)), c))
     # a source that special-cases amp == 0 claims the derivative there too (theorem hasDerivAt_amp_everywhere);
     # amp == 0 is outside C04's own range, so it is probed only then
-    if ctx.driver.batch(['ampzero'])[0].strip() == '1':
+    _st = ctx.extra.get('translator') or {}
+    if ctx.driver.batch(['ampzero'])[0].strip() == '1' and _st.get('dmdsZero') == 'translated':
         ctx.extra['amp_zero_special_case'] = 'present in the source: amplitude derivative probed at amp = 0 as well'
         for _ in range(5):
             pts.append((float(rng.randint(2, 7)), float(rng.randint(2, 7)), (0.0,) + rand_comp(rng, 10, 10)[1:]))
